@@ -4,7 +4,6 @@ import ast
 from ..common import (get_repo, get_tables, get_ops, short, norm, CFG, normal_only, method_loc,
                       calls_in, attr_tail, is_self_attr, handler_funcs, kwarg, class_instantiations,
                       stores_in)
-from .c04 import cache_rule
 from .c01 import class_closure
 
 DAG = "pysmt.walkers.dag.DagWalker"
@@ -15,8 +14,9 @@ EXPLANATION = (
     "result-relevant extra arguments or is constructed one-shot at every construction site (R1); "
     "cached Theory answers are never mutated: every attribute store in TheoryOracle targets a value "
     "that is fresh on all paths (R2, freshness dataflow with arity facts); handlers of the "
-    "environment singletons write no instance attribute (R4); value-keyed constant caches validate "
-    "before lookup (R5).")
+    "environment singletons write no instance attribute (R4); the value-keyed constant caches of the real, interpreted "
+    "manager give a value that merely compares equal to a cached key (True / 1, Fraction(1) / 1, 1+0j / 1) the outcome "
+    "it has on a fresh manager (R5).")
 NOT_DECIDED = ["ordering effects of set iteration (allowed by the property: 'up to the order of commutative arguments')"]
 
 
@@ -200,7 +200,9 @@ def run(ctx):
         ctx.floor(rs, 90)
 
     if ctx.want("R5"):
-        cache_rule(ctx, ctx.rule("R5", "value-keyed constant caches validate the value before lookup"), "C14")
+        rs = ctx.rule("R5", "real manager: a value that equals a cached constant key but has another Python type is treated as on a fresh manager")
+        from . import mgr_deep
+        mgr_deep.report(ctx, rs, mgr_deep.cache_results(), "pysmt/formula.py", 12)
 
     from . import c14_deep
     c14_deep.run(ctx)
